@@ -11,7 +11,7 @@ wt=/tmp/sv/$prop$ab
 rm -rf "$wt"; git -C /repo worktree prune; git -C /repo worktree add -q --detach "$wt" HEAD || exit 2
 cd "$wt"
 demo=$(ls "$src"/*_test.go | head -1)
-mkdir -p "$wt/$pkg"; cp "$demo" "$wt/$pkg/zz_demo_test.go"
+mkdir -p "$wt/$pkg"; cp "$demo" "$wt/$pkg/zz_demo_test.go"; sed -i "/^\/\/go:build/d; /^\/\/ +build/d" "$wt/$pkg/zz_demo_test.go"
 go test -vet=off -count=1 -run "$run" "./$pkg/" > /tmp/sv/$prop$ab.without.log 2>&1; without=$?
 git apply "$src/patch.diff" || { echo "PATCH DOES NOT APPLY"; exit 2; }
 go test -vet=off -count=1 -run "$run" "./$pkg/" > /tmp/sv/$prop$ab.with.log 2>&1; with=$?
